@@ -15,7 +15,7 @@ func init() {
 	register(&Property{
 		ID:        "C40",
 		Patterns:  []string{"./sql/mysql_db"},
-		Technique: "sibling agreement + CFG path search with branch-condition implication (go/cfg, go/types); zone-domain bounds analysis on go/ssa",
+		Technique: "sibling agreement + CFG path search with branch-condition implication (go/cfg, go/types); zone-domain bounds analysis on go/ssa; disjunctive-form reading of the account-selection condition (go/ast + go/types)",
 		Explanation: "Authentication accepts exactly the valid credentials — structural clauses over package sql/mysql_db. (U1) in every function that looks an account up with MySQLDb.GetUser and can " +
 			"return an authenticated identity (a non-nil mysql.Getter), every control-flow path from the lookup to such a return passes a branch on which the account's Locked flag is known to be " +
 			"false: a locked account can never be accepted, whatever the plugin. (U2) validateMysqlNativePassword indexes and slices its client-controlled arguments only in range (bounds engine). " +
